@@ -10,6 +10,7 @@ From Verif Require Import Base.GoSem Base.F32 Geom.Matrix Geom.TransformSpec Geo
 From Verif Require Import Geom.SvgPath Geom.Shapes Geom.UseGraph Geom.SvgPathSpec.
 From Verif Require Import Geom.SvgPathProofs Geom.ShapesProofs Geom.UseGraphProofs Geom.SvgLexProofs Geom.SvgPathEndToEnd.
 From Verif Require Import Geom.SvgArcSpec Geom.SvgArc Geom.SvgArcProofs Geom.SvgUnits Geom.SvgUnitsProofs.
+From Verif Require Import Geom.ViewboxMore.
 From Coq Require Import QArith List NArith ZArith.
 Import ListNotations.
 Open Scope Q_scope.
@@ -462,3 +463,20 @@ Example C18_use_twice_example :
               UTrans 1 0 0 1 0 0; UTrans 1 0 0 1 0 0; UShape (SRect 0 0 30 30); UTrans 3.0 0 0 3.0 0.0 0.0;
               UShape (SOp true (OMove 0 0)); UShape (SOp true (OLine 10 10))]).
 Proof. vm_compute. reflexivity. Qed.
+
+(* ------------------------------------------------------------------ *)
+(* final round: preserveAspectRatio slice covers the viewport (dual of
+   meet_fits); "none" stretches the viewBox to fill it exactly *)
+Theorem C18_viewbox_slice_covers : forall p w h vx vy vw vh, 0 < vw -> 0 < vh ->
+  par_none p = false -> par_slice p = true ->
+  let '(sx, sy, _, _) := viewbox_transform exactQ p w h vx vy vw vh in
+  sx == sy /\ w <= vw * sx /\ h <= vh * sy.
+Proof. exact viewbox_slice_covers. Qed.
+Print Assumptions C18_viewbox_slice_covers.
+
+Theorem C18_viewbox_none_fills : forall p w h vx vy vw vh, ~ vw == 0 -> ~ vh == 0 ->
+  par_none p = true ->
+  let '(sx, sy, _, _) := viewbox_transform exactQ p w h vx vy vw vh in
+  vw * sx == w /\ vh * sy == h.
+Proof. exact viewbox_none_fills. Qed.
+Print Assumptions C18_viewbox_none_fills.
